@@ -252,20 +252,22 @@ def check_element(m, make_elem, rng, tier):
             diff = np.abs(a - b).reshape(comp, len(i2), -1).max((0, 2))
             if any(dj > VTOL * max(1.0, np.abs(b).max()) and len(E[j]) == 1 for dj, j in zip(diff, i2)):
                 fails.append("[EVAL-FRESH] %s: second point set on a used basis differs from a fresh basis (max diff %.3e)" % (kind, diff.max()))
-    # POINT-SOURCE (scalar elements): the vector of a point holds phi_i(x) of a containing cell at dofs[i,k] and zero elsewhere
-    for j in (ok[:6] if cshape == () else []):
-        b = np.asarray(basis.point_source(x[:, j]))
-        if b.shape != (N,) or not any(close(b, e[0]) for e in E[j]):
-            fails.append("[POINT-SOURCE] point_source(%s): shape %s / entries differ from phi_i(x) of every containing cell" % (x[:, j].tolist(), b.shape))
-    # QUAD-POINTS: at the global quadrature points of every cell the interpolator agrees with basis.interpolate(y)
-    xq = basis.mapping.F(basis.X)                                   # (d, ncells, nqp)
-    want = np.asarray(basis.interpolate(y).value)
-    forms = [("(d, cells*qp)", xq.reshape(xq.shape[0], -1))] + ([("(d, cells, qp)", xq)] if cshape == () else [])
-    for form, xx in forms:
-        got = np.asarray(basis.interpolator(y)(xx))
-        if got.size != want.size or not close(got.reshape(want.shape), want):
-            fails.append("[QUAD-POINTS] interpolator(y)(x of shape %s) differs from basis.interpolate(y): shape %s, max diff %s"
-                         % (form, got.shape, np.abs(got.reshape(want.shape) - want).max() if got.size == want.size else "n/a"))
+    try:
+        # POINT-SOURCE (scalar elements): the vector of a point holds phi_i(x) of a containing cell at dofs[i,k] and zero elsewhere
+        for j in (ok[:6] if cshape == () else []):
+            b = np.asarray(basis.point_source(x[:, j]))
+            if b.shape != (N,) or not any(close(b, e[0]) for e in E[j]):
+                fails.append("[POINT-SOURCE] point_source(%s): shape %s / entries differ from phi_i(x) of every containing cell" % (x[:, j].tolist(), b.shape))
+        # QUAD-POINTS: at the global quadrature points of every cell the interpolator agrees with basis.interpolate(y)
+        xq = basis.mapping.F(basis.X)                                   # (d, ncells, nqp)
+        want = np.asarray(basis.interpolate(y).value)
+        for xx in [xq.reshape(xq.shape[0], -1)] + ([xq] if cshape == () else []):
+            got = np.asarray(basis.interpolator(y)(xx))
+            if got.size != want.size or not close(got.reshape(want.shape), want):
+                fails.append("[QUAD-POINTS] interpolator(y)(x of shape %s) differs from basis.interpolate(y): shape %s, max diff %s"
+                             % (xx.shape, got.shape, np.abs(got.reshape(want.shape) - want).max() if got.size == want.size else "n/a"))
+    except Exception as e:
+        fails.append("[POINT-SOURCE/QUAD-POINTS] point_source / interpolator at located or quadrature points raised %s: %s" % (type(e).__name__, e))
     return fails, dict(points=int(x.shape[1]), N=int(N), components=comp)
 
 
@@ -276,17 +278,10 @@ def extra_meshes():
     A = np.array
     u, h, g = A([0., .25, .75, 1.]), A([0., .5, 1.]), A([0., 1 / 64, 1 / 8, 1.])
 
-    def warp(m, f):
-        return type(m)(f(m.p.copy()), m.t.copy())
-
-    def drop(m, pred):
-        return m.remove_elements(np.nonzero(pred(m.p[:, m.t].mean(1)))[0])
-
-    def centre(c):
-        return (abs(c[0] - .5) < .25) & (abs(c[1] - .5) < .25)
-
-    def corner(c):
-        return (c[0] > .5) & (c[1] > .5)
+    warp = lambda m, f: type(m)(f(m.p.copy()), m.t.copy())                                          # noqa: E731
+    drop = lambda m, pred: m.remove_elements(np.nonzero(pred(m.p[:, m.t].mean(1)))[0])              # noqa: E731
+    centre = lambda c: (abs(c[0] - .5) < .25) & (abs(c[1] - .5) < .25)                              # noqa: E731
+    corner = lambda c: (c[0] > .5) & (c[1] > .5)                                                    # noqa: E731
     tri = fem.MeshTri.init_tensor(g, h)
     return [("line-graded", fem.MeshLine(A([0., 1 / 64, 1 / 8, .5, 2.]))),
             ("tri-graded-aniso", tri),
